@@ -21,7 +21,8 @@ RULE = ("every registered intermediate (enumerated from the running registry;"
         "expanded form, (iii) every declared permutational symmetry, with "
         "default and with permuted / renamed index tuples, (iv) expansion "
         "with every letter of the index alphabets as requested target name "
-        "(7 cyclic shifts of the name tuple) against the default-name "
+        "(7 cyclic shifts of the name tuple, plus the default names in "
+        "permuted order) against the default-name "
         "expansion with renamed targets; all decided by the"
         " Coq fraction validator.  Non-trivial: the definition has >= 2 "
         "terms or contracted indices; distinct by (intermediate, relation)")
@@ -241,13 +242,37 @@ def run(ctx):
                 continue
             if quick and len(ref) > 40:
                 continue
+            requests = []
             for r in range(1, 8):
                 names, cnt = [], {"occ": 0, "virt": 0}
                 for s_ in default:
                     L = letters[s_.space]
                     names.append(L[(cnt[s_.space] + r) % len(L)])
                     cnt[s_.space] += 1
-                names = "".join(names)
+                requests.append("".join(names))
+            # the default names themselves in another order (within each
+            # space: first two exchanged, reversed, rotated)
+            dn = [s_.name for s_ in default]
+            for perm_kind in ("swap_o", "swap_v", "reverse", "rotate"):
+                new_names = list(dn)
+                for sp in ("occ", "virt"):
+                    pos = [k_ for k_, s_ in enumerate(default)
+                           if s_.space == sp]
+                    vals = [dn[k_] for k_ in pos]
+                    if len(vals) < 2:
+                        continue
+                    if perm_kind == "swap_o" and sp == "occ" or \
+                            perm_kind == "swap_v" and sp == "virt":
+                        vals[0], vals[1] = vals[1], vals[0]
+                    elif perm_kind == "reverse":
+                        vals = vals[::-1]
+                    elif perm_kind == "rotate":
+                        vals = vals[1:] + vals[:1]
+                    for k_, v_ in zip(pos, vals):
+                        new_names[k_] = v_
+                if new_names != dn and "".join(new_names) not in requests:
+                    requests.append("".join(new_names))
+            for names in requests:
                 try:
                     got = real(cls.expand_itmd(indices=names,
                                                fully_expand=fully))
